@@ -279,12 +279,25 @@ def dict_case(ctx):
         U = d[L]
         ctx.oracle(f"{L} unitary", bool(np.allclose(U.conj().T @ U, np.eye(2), atol=1e-15)), case, sig=f"dict/{L}-unitary", theorem=f"C04_d{L}_unitary")
         ctx.oracle(f"{L} rows are the +1,-1 eigen-bras", bool(np.allclose(U @ s, pm @ U, atol=1e-15)), case, sig=f"dict/{L}-eigen", theorem=f"C04_d{L}_eigen")
+    # shared mutable defaults: a returned dictionary edited in place must not leak into later dictionaries / other states
+    d1 = unitaries.create_dict()
+    for k in d1:
+        d1[k].mul_(-3.0)
+    d2 = unitaries.create_dict()
+    st_a = qc.ComplexWaveFunction(1, 1, gpu=False)
+    st_a.unitary_dict["X"].add_(1.0)
+    st_b = qc.ComplexWaveFunction(1, 1, gpu=False)
+    st_c = qc.DensityMatrix(1, 1, 1, gpu=False)
+    fresh_ok = all(np.array_equal(from_pair_tensor(d2[k]), d[k]) for k in "XYZ") and \
+        all(np.array_equal(from_pair_tensor(s_.unitary_dict[k]), d[k]) for s_ in (st_b, st_c) for k in "XYZ")
+    ctx.oracle("create_dict() / default state dictionaries are fresh (unaffected by in-place edits of earlier ones)", bool(fresh_ok), case,
+               sig="dict/shared-default", theorem="C04_dZ/dX/dY")
     if ctx.driver is not None:
         m = ctx.driver.call("c04.dict")
         for L in "XYZ":
             mv = np.array([[cdec(p, False) for p in row] for row in m[L]])
             ctx.point(f"create_dict[{L}]", "property", np.r_[d[L].real.ravel(), d[L].imag.ravel()], np.r_[mv.real.ravel(), mv.imag.ravel()], case,
-                      theorem="C04_dZ/dX/dY", sig=f"dict/{L}")
+                      theorem="C04_dZ/dX/dY", sig=f"dict/{L}", rtol=4e-16, atol=0.0)
 
 
 def gen_cases(ctx, thorough):
